@@ -21,7 +21,7 @@ from .rec_pipeline import DEFAULT_H, default_cfg, make_evaluator
 from .checks_pipeline import DISTINCT_H
 from .tlaparse import parse
 
-C15_CLAUSES = ["T_NoRaise", "T_InputsUntouched", "T_Deterministic", "T_KeysStable", "T_SavedStable", "T_ModelKeys"]
+C15_CLAUSES = ["T_NoRaise", "T_InputsUntouched", "T_Deterministic", "T_KeysStable", "T_SavedStable", "T_ArgsUntouched", "T_ModelKeys"]
 
 ATTRS = ["num_ref_instances", "num_pred_instances", "tp", "fp", "fn", "prec", "rec", "rq", "sq", "sq_std", "pq", "sq_dsc", "sq_dsc_std",
          "pq_dsc", "sq_assd", "sq_assd_std", "sq_rvd", "sq_rvd_std", "global_bin_dsc", "global_bin_iou", "global_bin_assd", "global_bin_rvd"]
@@ -36,7 +36,56 @@ def _cfgs():
         # per-group overrides must not leak into later groups or later calls
         "c3": (default_cfg(input="SEM", matcher="naive", mm="IOU", thr=[1, 4], dm="IOU", dthr=[2, 3], im=["DSC", "IOU", "RVD"], gm=["DSC", "RVD"]),
                lambda: SegmentationClassGroups({"one": LabelGroup([1], single_instance=True), "rest": LabelGroup([2, 3])})),
+        # a rejected configuration: the decision metric is not among the instance metrics (the constructor
+        # accepts it, every use is refused); c1 and c5 have the constructor's default metric lists
+        "c5": (default_cfg(input="UNM", gm=["DSC"], dm="clDSC", dthr=[1, 2]), None),
     }
+
+
+def _shared_lists(cfg, shared):
+    from .rec_pipeline import METRIC
+    key = json.dumps([cfg["im"], cfg["gm"], cfg["dm"]])
+    if key not in shared:
+        shared[key] = ([METRIC[m] for m in cfg["im"]], [METRIC[m] for m in cfg["gm"]])
+    return shared[key]
+
+
+def _make(cfg, groups, sgt, src, shared):
+    """build an evaluator; the metric-list arguments are fresh lists, the caller's one shared pair of
+    lists for this configuration, or omitted (the constructor's default-argument objects)"""
+    from panoptica import Panoptica_Evaluator
+    from .rec_pipeline import BACKEND, INPUT, METRIC, make_handler, make_matcher
+    from panoptica import ConnectedComponentsInstanceApproximator
+    kw = {}
+    if src == "shared":
+        lists = _shared_lists(cfg, shared)
+        kw = {"instance_metrics": lists[0], "global_metrics": lists[1]}
+    elif src != "default":
+        kw = {"instance_metrics": [METRIC[m] for m in cfg["im"]], "global_metrics": [METRIC[m] for m in cfg["gm"]]}
+    return Panoptica_Evaluator(
+        expected_input=INPUT[cfg["input"]],
+        instance_approximator=ConnectedComponentsInstanceApproximator(cca_backend=BACKEND[cfg["backend"]]),
+        instance_matcher=make_matcher(cfg["matcher"], cfg["mm"], cfg["thr"]),
+        edge_case_handler=make_handler(cfg["h"]),
+        segmentation_class_groups=groups,
+        decision_metric=None if cfg["dm"] == "NONE" else METRIC[cfg["dm"]],
+        decision_threshold=None if cfg["dm"] == "NONE" else cfg["dthr"][0] / cfg["dthr"][1],
+        save_group_times=sgt, **kw)
+
+
+def _arg_objects(shared):
+    """content of the caller's shared argument lists and of the constructor's default arguments"""
+    import inspect
+    from panoptica import Panoptica_Evaluator
+    out = []
+    for key in sorted(shared):
+        for nm, lst in zip(("im", "gm"), shared[key]):
+            out.append({"n": f"shared:{key}:{nm}", "d": ",".join(m.name for m in lst)})
+    for pname, par in inspect.signature(Panoptica_Evaluator.__init__).parameters.items():
+        if isinstance(par.default, (list, dict, set)):
+            d = par.default
+            out.append({"n": f"default:{pname}", "d": ",".join(getattr(x, "name", repr(x)) for x in d)})
+    return out
 
 
 def _inputs():
@@ -88,14 +137,19 @@ def run_history(actions, workdir: Path) -> dict:
     evs, evcfg, has_keys = [], [], []
     events = []
     nagg = 0
+    shared: dict = {}
     for a in actions:
+        a.setdefault("src", "fresh" if a["act"] == "new_evaluator" else "-")
         ev_rec = dict(a)
-        ev_rec.update({"out": "ok", "res": "-", "inb": "-", "ina": "-", "keys": [], "saved": []})
+        ev_rec.update({"out": "ok", "res": "-", "inb": "-", "ina": "-", "keys": [], "saved": [], "args": []})
+        if a["act"] == "new_evaluator" and a["src"] == "shared":
+            _shared_lists(cfgs[a["c"]][0], shared)      # the caller's lists exist before the call
+        ev_rec["argsb"] = _arg_objects(shared)
         try:
             with quiet():
                 if a["act"] == "new_evaluator":
                     cfg, groups = cfgs[a["c"]]
-                    evs.append(make_evaluator(cfg, groups=groups() if groups else None, save_group_times=a["sgt"]))
+                    evs.append(_make(cfg, groups() if groups else None, a["sgt"], a["src"], shared))
                     evcfg.append(a["c"])
                     has_keys.append(False)
                 elif a["act"] == "evaluate":
@@ -134,6 +188,7 @@ def run_history(actions, workdir: Path) -> dict:
                         ev_rec["keys"].append({"e": i + 1, "c": evcfg[i], "k": list(evl.resulting_metric_keys)})
                     evl.save_to_config(str(workdir / "o.yaml"))
                     ev_rec["saved"].append({"e": i + 1, "d": hashlib.sha1((workdir / "o.yaml").read_bytes()).hexdigest()[:12]})
+                ev_rec["args"] = _arg_objects(shared)
         except Exception as e:  # noqa: BLE001
             ev_rec["out"] = "raise"
             ev_rec["exception"] = "observation: " + f"{type(e).__name__}: {e}"[:200]
@@ -148,10 +203,12 @@ def random_history(rng, n):
     for _ in range(n):
         kinds = ["new_evaluator"] if nev == 0 else (["new_evaluator"] if nev < 3 else []) + ["evaluate"] * 4 + ["query_keys", "new_aggregator", "new_aggregator", "save"]
         k = rng.choice(kinds)
-        base = {"act": k, "e": 0, "c": "-", "inp": "-", "sgt": False, "ra": True, "log": False, "vb": False, "pool": "serial"}
+        base = {"act": k, "e": 0, "c": "-", "inp": "-", "sgt": False, "ra": True, "log": False, "vb": False, "pool": "serial", "src": "-"}
         if k == "new_evaluator":
             nev += 1
-            base.update(e=nev, c=rng.choice(["c1", "c2", "c3"]), sgt=rng.random() < 0.3)
+            c = rng.choice(["c1", "c1", "c2", "c3", "c5"])
+            base.update(e=nev, c=c, sgt=rng.random() < 0.3,
+                        src=rng.choice(["fresh", "shared", "shared", "default"] if c in ("c1", "c5") else ["fresh", "shared"]))
         else:
             base.update(e=rng.randint(1, nev))
             if k == "evaluate":
@@ -186,7 +243,8 @@ def tlc_histories(num, depth, sd):
                 d = parse(m)
                 if d["act"] == "init":
                     continue
-                acts.append({"act": d["act"], "e": d["e"], "c": d["c"], "inp": d["inp"], "sgt": d["sgt"], "ra": d["ra"], "log": d["log"], "vb": d["vb"], "pool": d["pool"]})
+                acts.append({"act": d["act"], "e": d["e"], "c": d["c"], "inp": d["inp"], "sgt": d["sgt"], "ra": d["ra"], "log": d["log"], "vb": d["vb"], "pool": d["pool"],
+                             "src": d.get("src", "-")})
             if acts:
                 out.append(acts)
         return out, r
@@ -200,7 +258,8 @@ def check_C15(tier: str, v: Verdict):
     run_models(v, [("MC_Objects", "MC_Objects_quick.cfg" if tier == "quick" else "MC_Objects_thorough.cfg"),
                    ("MC_Pipeline", "MC_Pipeline_quick.cfg")])
     if tier == "thorough":
-        self_test_models(v, [("MC_Objects", "MC_Objects_legacy_alias.cfg", "KeysAreBase"), ("MC_Objects", "MC_Objects_legacy_times.cfg", "NoCallRaises")])
+        self_test_models(v, [("MC_Objects", "MC_Objects_legacy_alias.cfg", "KeysAreBase"), ("MC_Objects", "MC_Objects_legacy_times.cfg", "NoCallRaises"),
+                             ("MC_Objects", "MC_Objects_legacy_args.cfg", "ArgsAreNominal")])
     root = common.scratch("C15-runs")
     try:
         hs, r = tlc_histories(40 if tier == "quick" else 600, 7, seed() + 5)
@@ -238,7 +297,7 @@ def check_C15(tier: str, v: Verdict):
             site = {"act": e["act"], "opt_sgt": e["sgt"], "opt_log": e["log"], "opt_verbose": e["vb"], "opt_result_all": e["ra"], "pool": e["pool"],
                     "out": e["out"], "exc": e.get("exception", "").split(":")[0],
                     "after_aggregator_with_log_times": any(x["act"] == "new_aggregator" and x["log"] for x in t["ev"][:l])}
-            v.violation(viol["inv"], site, {"kind": "object-history", "actions": [{k: x[k] for k in ("act", "e", "c", "inp", "sgt", "ra", "log", "vb", "pool")} for x in t["ev"]],
+            v.violation(viol["inv"], site, {"kind": "object-history", "actions": [{k: x[k] for k in ("act", "e", "c", "inp", "sgt", "ra", "log", "vb", "pool", "src")} for x in t["ev"]],
                                             "failing_step": l, "event": e}, what=f"{t['tag']} step {l}: {e['act']} {e.get('exception', '')[:100]}")
         for d in r.deadlocks:
             tid, l = int(d["vars"]["tid"]), int(d["vars"]["l"])
@@ -251,14 +310,14 @@ def check_C15(tier: str, v: Verdict):
     finally:
         shutil.rmtree(sdir, ignore_errors=True)
     v.cov["evaluations"] = sum(len(t["ev"]) for t in traces)
-    v.cov["distinct_nontrivial"] = len({json.dumps([[e[k] for k in ("act", "e", "c", "inp", "sgt", "ra", "log", "vb", "pool")] for e in t["ev"]]) for t in traces
+    v.cov["distinct_nontrivial"] = len({json.dumps([[e[k] for k in ("act", "e", "c", "inp", "sgt", "ra", "log", "vb", "pool", "src")] for e in t["ev"]]) for t in traces
                                        if sum(1 for e in t["ev"] if e["act"] == "evaluate") >= 2})
     v.cov["rule"] = ("histories of API calls (new evaluator with/without save_group_times, evaluate with every combination of result_all / "
                      "save_group_times / log_times, serial or real multiprocessing pool, query of the advertised keys, aggregator construction "
                      "with/without log_times, save) on up to 3 shared evaluators of 3 configurations and 3 inputs: TLC-simulated behaviours of "
                      "Objects.tla replayed on real objects + seeded random histories; evaluations = API calls executed; distinct by action "
                      "sequence; non-trivial = at least two evaluate calls")
-    v.cov["samples"] = [[{k: e[k] for k in ("act", "e", "c", "inp", "sgt", "ra", "log", "vb", "pool")} for e in t["ev"]] for t in traces[:2]]
+    v.cov["samples"] = [[{k: e[k] for k in ("act", "e", "c", "inp", "sgt", "ra", "log", "vb", "pool", "src")} for e in t["ev"]] for t in traces[:2]]
     v.assumptions += ["TLC, CommunityModules", "results are compared through a digest of the bit patterns of 22 reported attributes per group "
                       "(computation_time excluded); whether an evaluator has computed its keys is tracked by the harness from the history"]
 
